@@ -285,11 +285,11 @@ Proof.
   destruct (picks_pt rs ls picks Hf) as (idxs & Hlt & Hprod & Hseg).
   set (vs := flat_map (label_vars rs) ls) in *.
   assert (Hlen : length vs = length idxs).
-  { apply Forall2_len in Hlt. rewrite map_length in Hlt. lia. }
+  { pose proof (Forall2_len _ _ _ Hlt) as Hl. rewrite map_length in Hl. symmetry. exact Hl. }
   exists (@mk QProb (gv rs) k (combine vs idxs) bp). split; [|split].
   - apply In_all_preterminals. exists (@Next.Build_bstruct QProb bp vs). simpl. repeat split.
     + unfold guesser_view. simpl. rewrite nth_error_map, Hk. reflexivity.
-    + apply map_fst_combine. lia.
+    + apply map_fst_combine. exact Hlen.
     + apply Forall2_lt_combine. exact Hlt.
   - unfold segs_of. simpl. rewrite Hk. simpl. rewrite (map_snd_combine vs idxs Hlen).
     subst s. unfold denote. apply product_In. rewrite Forall2_map_r in Hseg |- *.
